@@ -37,6 +37,8 @@ func init() {
 			{ID: "C16.R16", Text: "member number, group size and range stay the values in effect until the streams are gone: the discovery's metric record is assigned only by the constructor (Get updates its fields from the membership in effect; Close does not reset it)", Run: func(c *Ctx, id string) {
 				fieldWriters("stream", "vBucketDiscovery", c.W.discoveryMetricField(), "a scrape during shutdown would report member 0 of 0 while the streams are still open", "stream.NewVBucketDiscovery")(c, id)
 			}},
+			{ID: "C16.R17", Text: "the state endpoints answer from the live state: the offset/followers/status/rebalance handlers store nothing into the API object or package-level variables", Run: apiHandlersStateless},
+			{ID: "C16.R18", Text: "member number and group size are those of the announcement in effect: bus-fed memberships record the announced object and never update a kept one in place (same rule as C10.R17)", Run: firstInfoHandOver},
 			{ID: "C16.R5", Text: "active-stream count: set at open, decremented once per final end only (same rules as C12.R1, C12.R2)", Run: func(c *Ctx, id string) { c12r1(c, id); c12r2counter(c, id) }},
 		},
 	})
